@@ -217,7 +217,8 @@ def record_analysis(spec):
                     args = [np.ascontiguousarray(x), np.ascontiguousarray(y), starts, L, w, om]
                     if order >= 1:
                         args.append(core._build_Q(L, order))
-                    if spec.get("refdef"):
+                    if spec.get("refdef") or (int(ref.K[j]) * L <= 400000 and int(ref.K[j]) <= 64):
+                        # bins averaged over few segments (cheap: an independent reference for every detrend order), and
                         # ill-conditioned records: the reference is the definition itself, accumulated in long double
                         from .drivers.C01 import _definition
                         mxx, myy, mr, mi, m2 = _definition(x, y, starts, L, w, om, order, "csd")
